@@ -4,8 +4,10 @@ The CSV codec the two command-line tools actually use, as CPython 3.12 `Modules/
   * export (`_cat_numbers.py: print_table`): `csv.writer(sys.stdout, dialect="excel")`, one `writerow` per table row.
     excel dialect: delimiter `,`, quotechar `"`, doublequote, no escapechar, lineterminator `\r\n`, QUOTE_MINIMAL.
     `csv_writerow` → `join_append` → `join_append_data`: a field is copied character by character, a `"` is doubled,
-    and the field is wrapped in quotes iff some character is the delimiter, the quote character, `\n`, `\r` (or occurs
-    in the line terminator — the same two characters).  After the last field: `if (num_fields > 0 && rec_len == 0)`
+    and the field is wrapped in quotes iff some character is the delimiter, the quote character, or occurs in the
+    line terminator (`\r`, `\n`).  (CPython 3.12.1, the running interpreter, tests exactly these; `csv.writer(…,
+    lineterminator="\n").writerow(["a\rb"])` writes `a\rb` unquoted there.  Later CPython versions quote `\r` and
+    `\n` regardless of the terminator; for the excel dialect the sets coincide.)  After the last field: `if (num_fields > 0 && rec_len == 0)`
     (the record is one empty field) the field is re-appended quoted, so `[""]` is written `""` and `[]` is written as
     an empty line.  No other character is special (leading/trailing blanks, NUL, U+2028, U+0085 … are copied as they are).
   * import (`_csv2numbers.py: Converter._read_csv`): `csv.reader(csvfile, dialect=csv.excel)` after `csv.excel.strict = True`,
@@ -25,7 +27,8 @@ open NumbersModel
 
 /-! ## writer -/
 
-/-- the characters that make `join_append_data` set `*quoted = 1` under QUOTE_MINIMAL -/
+/-- the characters that make `join_append_data` set `*quoted = 1` under QUOTE_MINIMAL: delimiter, quotechar, and
+    the characters of the line terminator `\r\n` -/
 def special (c : Char) : Bool := c == ',' || c == '"' || c == '\r' || c == '\n'
 
 /-- the copy loop of `join_append_data`: `"` is written twice (doublequote), everything else once -/
